@@ -24,6 +24,7 @@ type Ctx struct {
 
 	// NeedClient: the document will be generated with --client, so rows goag rejects
 	// only under --client are outside this family's dialect too.
+	Lean       bool // ResponsesDoc: no schema / header / request body components at all
 	NeedClient bool
 
 	// LowerCompNames: also draw component keys that start with a lower-case letter
@@ -191,6 +192,9 @@ func (c *Ctx) rawSchema(depth int, pos string) *Schema {
 	}
 	if c.Doc.Components != nil && len(c.Doc.Components.Schemas) > 0 {
 		alts = append(alts, alt{3, "ref"})
+		if depth > 0 && pos != "component" {
+			alts = append(alts, alt{1, "nullable-ref"})
+		}
 	}
 	var names []string
 	for _, a := range alts {
@@ -211,6 +215,12 @@ func (c *Ctx) rawSchema(depth int, pos string) *Schema {
 		s = c.objectSchema(depth, true)
 	case "map":
 		s = &Schema{Type: "object", AdditionalProperties: c.addProps(depth)}
+	case "nullable-ref":
+		// OpenAPI 3.0's idiom for "this object or null": nullable beside a one-member allOf
+		name := c.objectComponent(depth-1, "nullable_ref", false)
+		s = &Schema{Nullable: true, AllOf: []*Schema{{Ref: RefSchemas + name}}}
+		c.Tag("nullable-ref-idiom")
+		return s
 	case "allOf":
 		s = c.allOfSchema(depth)
 		if pos != "component" {
@@ -407,7 +417,7 @@ func (c *Ctx) oneOfSchema(depth int) *Schema {
 			}
 			c.discriminated[name] = true
 			s.OneOf = append(s.OneOf, &Schema{Ref: RefSchemas + name})
-			if withMapping {
+			if withMapping && (i == n-1 || rapid.IntRange(0, 2).Draw(t, "mapped") != 0) {
 				key := c.PlainName("m", "mapkey")
 				if rapid.Bool().Draw(t, "mapfull") {
 					s.Discriminator.Mapping[key] = RefSchemas + name
@@ -641,6 +651,8 @@ func BaseForms() []BaseForm {
 		{Name: "flag", Flag: "/x"},
 		{Name: "flag-over-servers", Servers: []*Server{{URL: "/ignored"}}, Flag: "/x/y"},
 		{Name: "second-server-ignored", Servers: []*Server{{URL: "/v1"}, {URL: "/v2"}}, Expected: "/v1"},
+		{Name: "flag-root-over-servers", Servers: []*Server{{URL: "https://h.example/api/v1"}}, Flag: "/"},
+		{Name: "flag-trailing-slash", Flag: "/x/"},
 	}
 }
 
